@@ -203,9 +203,68 @@ def check(run):
         run.count('mode_' + c['mode'])
         run.count('guard' if c['guard_us'] else 'noguard')
     res = common.standard_flow(run, spec, cases)
+    check_stopped_before_init(run)
     for c, o, ch in res:
         for e in o['log']:
             run.count('log_' + e[0] + (('_' + str(e[3])) if e[0] == 'end' else ''))
+
+
+def check_stopped_before_init(run):
+    """A circuit that is terminated while another block is still being initialised: the OutputAsync
+    block was started but never initialised; stop_data must still run, be reported once and be the
+    last run, and the output must come back to 0 (the acceptor's rule 'output = number of active runs')."""
+    for mode in ('wait', 'cancel', 'start'):
+        obs = dict(calls=[], results=[], output=None, error=None, harness=None)
+
+        async def main(loop, mode=mode, obs=obs):
+            edzed.reset_circuit()
+            circuit = edzed.get_circuit()
+
+            class Slow(edzed.AddonAsync, edzed.SBlock):
+                async def init_async(self):
+                    await asyncio.sleep(1.0)
+                    self.set_output(0)
+
+            class Sink(edzed.SBlock):
+                def init_regular(self):
+                    self.set_output(0)
+
+                def _event(self, etype, data):
+                    obs['results'].append([etype, data.get('put', {}).get('value')])
+
+            async def coro(value):
+                obs['calls'].append(value)
+                await asyncio.sleep(0.05)
+                return value
+            Slow('slow', init_timeout=5)
+            sink = Sink('sink')
+            out = edzed.OutputAsync('out', coro=coro, mode=mode, stop_data={'value': STOP_ID},
+                                    on_success=edzed.Event(sink, 'success'), on_error=edzed.Event(sink, 'error'),
+                                    on_cancel=edzed.Event(sink, 'cancel'), stop_timeout=10)
+            task = asyncio.create_task(circuit.run_forever())
+            await asyncio.sleep(0.2)              # 'slow' is still initialising
+            try:
+                await circuit.shutdown()
+            except BaseException as err:      # noqa
+                obs['error'] = repr(err)[:200]
+            await asyncio.sleep(1)
+            obs['output'] = out.output
+        try:
+            vloop.run_virtual(main, wall_limit_s=10.0)
+        except BaseException as err:          # noqa
+            obs['harness'] = repr(err)[:200]
+        finally:
+            edzed.reset_circuit()
+        run.add_case(dict(stopped_before_init=mode), True)
+        run.count('stopped_before_init')
+        ok = (obs['harness'] is None and obs['calls'] == [STOP_ID] and obs['results'] == [['success', STOP_ID]]
+              and obs['output'] == 0)
+        if not ok:
+            run.violation('monitor', dict(case=dict(stopped_before_init=mode), observed=obs),
+                          f"OutputAsync(mode={mode}, stop_data) in a circuit terminated during the initialisation "
+                          f"of another block: coroutine calls {obs['calls']}, result events {obs['results']}, final "
+                          f"output {obs['output']!r} (expected: one run with the stop_data, one 'success', output 0); "
+                          f"harness: {obs['harness']}", clause='stopped_before_init:' + mode, concrete=True)
 
 
 def replay(run, path):
